@@ -4,6 +4,8 @@
 //	                       one JSON line per case with what the implementation emitted
 //	logh stress G N SEED   G goroutines x N records through one SimpleLogger at mixed levels;
 //	                       one JSON line with the number of lines whose label is not the record's level
+//	logh shared SEED       several SimpleLoggers over one shared *log.Logger (scenarios.go)
+//	logh hostile           awkward argument values + a later record under a watchdog (scenarios.go)
 package main
 
 import (
@@ -243,7 +245,7 @@ func stress(g, n int, seed int64) {
 
 func main() {
 	if len(os.Args) < 2 {
-		fmt.Fprintln(os.Stderr, "usage: logh matrix | stress G N SEED")
+		fmt.Fprintln(os.Stderr, "usage: logh matrix | stress G N SEED | shared SEED | hostile")
 		os.Exit(2)
 	}
 	switch os.Args[1] {
@@ -254,6 +256,11 @@ func main() {
 		n, _ := strconv.Atoi(os.Args[3])
 		seed, _ := strconv.ParseInt(os.Args[4], 10, 64)
 		stress(g, n, seed)
+	case "shared":
+		seed, _ := strconv.ParseInt(os.Args[2], 10, 64)
+		shared(seed)
+	case "hostile":
+		hostile()
 	default:
 		os.Exit(2)
 	}
